@@ -7,9 +7,20 @@ from verifkit import Infra
 
 
 def run(ctx):
-    q = ctx.quick
     if ctx.replay:
         return replay_artefact(ctx)
+    try:
+        check(ctx)
+    except Infra as e:
+        # infrastructure trouble after deviations of the real code were already observed must not hide them
+        if not ctx.violations:
+            raise
+        ctx.log("INFRA after violations were observed (reported as violations): %s" % str(e)[:500])
+        ctx.cov.setdefault("rule", "aborted after violations: " + str(e)[:200])
+
+
+def check(ctx):
+    q = ctx.quick
     binp = ctx.build("statejournal")
 
     # 1. design level, exhaustive: journal/barrier mechanism = plain map with snapshots; Stage = canonical content
@@ -33,7 +44,8 @@ def run(ctx):
                                           "exhaustive", 900 if q else 3000)
     exhaustive_states = r.distinct
     res = sc.replay_behaviours(ctx, binp, path, "exhaustive", roots, rstats)
-    replay_demo(ctx, binp, path)
+    if not ctx.violations:
+        replay_demo(ctx, binp, path)          # demonstrations are meaningful on a conforming tree only
     path, n_sim, _ = sc.export_behaviours(ctx, "MC_StateJournal_sim.cfg", "walks", 900 if q else 3000,
                                           simulate="num=%d" % (60 if q else 500), depth=20)
     sc.replay_behaviours(ctx, binp, path, "walks", roots, rstats)
@@ -45,7 +57,7 @@ def run(ctx):
     sc.trie_check(ctx, seqlen=3 if q else 4, persist_every=9 if q else 1, big=4 if q else 24, bigkeys=2000 if q else 6000, stats=tstats)
 
     # 4. implementation -> model: seeded random histories over large universes, validated by Trace_StateJournal.tla
-    demo_ok = sc.binding_demo(ctx, binp)
+    demo_ok = sc.binding_demo(ctx, binp) if not ctx.violations else True
     events, stats, how = sc.record(ctx, binp, 12 if q else 60, 500 if q else 650, "random")
     accepted = 0
     if events is not None:
@@ -116,8 +128,8 @@ def replay_demo(ctx, binp, path):
         b = json.loads(l)
         for j in range(1, len(b) - 1):
             e = b[j]
-            if e[0] == 5 and e[3] != 0 and b[j - 1][slot(e[1], e[2])] != e[3] and b[j + 1][slot(e[1], e[2])] == e[3] \
-                    and b[j + 1][0] not in (0, 12):
+            later_harmless = all(x[0] in (1, 2, 3, 4, 8, 10, 11) or (x[0] == 5 and (x[1], x[2]) != (e[1], e[2])) for x in b[j + 1:])
+            if e[0] == 5 and e[3] != 0 and b[j - 1][slot(e[1], e[2])] != e[3] and b[j + 1][slot(e[1], e[2])] == e[3] and later_harmless:
                 pick = (b, j)
                 break
         if pick:
